@@ -153,9 +153,16 @@ def run_case(case, ctx):
         o2 = os.path.join(d, "c.sgz")
         i0, i1 = (n_il // 2 // bs[0]) * bs[0], n_il
         x0, x1 = 0, min(n_xl, max(bs[1], (n_xl // 2 // bs[1]) * bs[1]))
+        if case["values"]["vseed"] % 2:
+            # a box ending inside the last, partly filled block: the cropper widens it to the block boundary,
+            # clipped to the cube, so the axes reported are those of the clipped box
+            req_i1 = max(i0 + 1, n_il - 1)
+            i1 = min(n_il, -(-req_i1 // bs[0]) * bs[0])
+        else:
+            req_i1 = i1
         c = SgzCropper(out)
         try:
-            c.write_cropped_file_by_indexes(o2, (i0, i1), (x0, x1), None)
+            c.write_cropped_file_by_indexes(o2, (i0, req_i1), (x0, x1), None)
         finally:
             c.close()
         check_axes(o2, src_il[i0:i1], src_xl[x0:x1], src_s, (i1 - i0) * (x1 - x0), "cropped")
